@@ -142,15 +142,20 @@ def data_session(col, binpath, vmon, rng, tag, scratch):
         # Stats tab
         sess.key("F4")
         sess.settle()
-        txt = sess.p.screen.text()
         tot = most = None
-        for l in txt:
-            m = re.search(r"Total Airplanes\s+All Time\s+(\d+)", l)
-            if m:
-                tot = int(m.group(1))
-            m = re.search(r"Most Airplanes\s+\S+\s+\S+\s+(\d+)", l)
-            if m:
-                most = int(m.group(1))
+        t_end = time.monotonic() + 10
+        while True:
+            for l in sess.p.screen.text():
+                m = re.search(r"Total Airplanes\s+All Time\s+(\d+)", l)
+                if m:
+                    tot = int(m.group(1))
+                m = re.search(r"Most Airplanes\s+\S+\s+\S+\s+(\d+)", l)
+                if m:
+                    most = int(m.group(1))
+            if (tot is not None and most is not None) or time.monotonic() > t_end or not sess.p.alive():
+                break
+            # a loaded machine: the tab switch has not been drawn yet
+            sess.p.pump(0.2)
         col.count("stats_compared")
         if tot is None or most is None:
             col.inconc("Stats rows not found on screen")
